@@ -257,6 +257,8 @@ PLACEMENTS = {
     "same": ("d1/a", "d1/b"), "child": ("d1/a", "d1/sub dir/b"), "parent": ("d1/sub/a", "d1/b"),
     "sibling": ("d1/s1/a", "d1/s2/b"), "cousin": ("d1/s1/deep/a", "d1/s2/x.y/b"), "dotted": ("v1.2/a", "v1.2/cfg.d/b.dict"),
     "backslashless-space": ("my dir/a", "other dir/p q"),
+    # names that are not in Unicode NFC form (decomposed accents as macOS hands them out, the OHM SIGN): bytes are bytes
+    "decomposed": ("d1/a", "d1/re\u0301sultats/b"), "unit-sign": ("10 k\u2126/s1/a", "10 k\u2126/mesure\u0301/b"),
 }
 
 
